@@ -135,7 +135,7 @@ static std::string opLda(Args& A, bool weighted, Session* Se){
 	for(std::size_t i = 0; i < n; ++i){
 		if(T.rows[i][d] < 0 || T.rows[i][d] > 64) return "bad-op";
 		y[i] = (unsigned int)T.rows[i][d];
-		if(weighted){ w[i] = T.rows[i][d + 1]; if(!(w[i] > 0)) return "bad-op"; }
+		if(weighted){ w[i] = T.rows[i][d + 1]; if(!(w[i] >= 0)) return "bad-op"; }   // zero weights are admissible
 	}
 	Out o;
 	LDA freshTrainer(reg);
